@@ -298,12 +298,12 @@ class _Expr(SymEval):
                 return args[0].copy()
             if f.attr == "concatenate":
                 seq = [np.asarray(x) if not isinstance(x, np.ndarray) else x for x in args[0]]
-                return np.concatenate(seq, **{k: v for k, v in kw.items() if k == "axis"})
+                return _prog_call(np.concatenate, seq, **{k: v for k, v in kw.items() if k == "axis"})
             if f.attr == "zeros" and args:
                 return np.zeros(args[0])
             PURE_NUMERIC = ("argsort", "sort", "unique", "arange", "cumsum", "where", "sum", "max", "min", "amax", "amin", "abs", "absolute", "sqrt", "prod", "any", "all", "nonzero", "argmax", "argmin", "diff", "lexsort", "searchsorted", "count_nonzero", "sign", "floor", "ceil")
             if f.attr in PURE_NUMERIC and args and all(not isinstance(a, (Sym, Rec)) and not (isinstance(a, np.ndarray) and a.dtype == object) and not (isinstance(a, (list, tuple)) and any(isinstance(x, (Sym, Rec)) for x in a)) for a in args):
-                return getattr(np, f.attr)(*args, **kw)
+                return _prog_call(getattr(np, f.attr), *args, **kw)
             if f.attr in ("repeat", "tile") and args:
                 a0 = np.asarray(args[0], dtype=object) if not isinstance(args[0], np.ndarray) else args[0]
                 return getattr(np, f.attr)(a0, *args[1:], **kw)
